@@ -257,13 +257,13 @@ func init() {
 
 // Case is one input to run.
 type Case struct {
-	ID    string
-	Kind  string // entriesFor key
-	Ext   string
-	Data  []byte
-	Desc  string // fault description
-	Base  string // base document id
-	Changed bool // the fault changed >= 1 byte of a base that opened cleanly
+	ID      string
+	Kind    string // entriesFor key
+	Ext     string
+	Data    []byte
+	Desc    string // fault description
+	Base    string // base document id
+	Changed bool   // the fault changed >= 1 byte of a base that opened cleanly
 	Neutral []byte // the same fault with its known-finding trigger neutralised (counterfactual), if any
 }
 
